@@ -427,3 +427,44 @@ Proof.
 Qed.
 Example registry_first_nonvacuous : registry_find [(false, reg_alts)] reg_hosts = Some (0%nat, 1%nat).
 Proof. vm_compute. reflexivity. Qed.
+
+(* ---------- the GPU clause without reference to list positions ---------- *)
+(* "the host offers at least the requested number of GPUs, each with at least the requested memory":
+   the requested GPUs can be assigned to DISTINCT GPUs of the host that are large enough            *)
+Definition offers_gpus (r : req) (h : host) : Prop :=
+  exists f : nat -> nat,
+    (forall i j, (i < length (r_gpus r))%nat -> (j < length (r_gpus r))%nat -> f i = f j -> i = j) /\
+    (forall i m, nth_error (r_gpus r) i = Some m ->
+       exists g, nth_error (h_cuda h) (f i) = Some g /\ m <= g_mem g).
+
+(* the property's "only if", in its own words *)
+Lemma match_only_if : forall r h s, match_simple r h = Some s ->
+  offers_gpus r h /\ c_mem (r_cpu r) <= c_mem (h_cpu h) /\ c_cores (r_cpu r) <= c_cores (h_cpu h) /\
+  (0 < h_maxdur h -> r_dur r <= h_maxdur h).
+Proof.
+  intros r h s H. apply match_sound in H. destruct H as (_ & Hz & Hm & Hc & Hd & _).
+  split; [|auto]. exists (fun i => i). split; [auto|].
+  intros i m Hi. destruct (Hz i m Hi) as (g & Hg & H1 & _). eauto.
+Qed.
+
+(* the converse does not hold: match() pairs the i-th smallest request with the i-th GPU in the order the host
+   lists them (HostSpecification.__post_init__, which would sort them, never runs: the class is built with
+   attrs) -- a host listing GPUs of 8, 24, 24 refuses two GPUs of 20, the same host listing 24, 24, 8 accepts *)
+Definition gpu0 (m : Z) : cuda := {| g_mem := m; g_min := 0 |}.
+Definition host_gpus (l : list Z) : host :=
+  {| h_cuda := map gpu0 l; h_cpu := {| c_mem := 100; c_cores := 8 |}; h_prio := 0; h_maxdur := 0; h_mingpu := 0 |}.
+Definition req_gpus (l : list Z) : req := {| r_gpus := l; r_cpu := dcpu; r_dur := 0 |}.
+Lemma match_positional_refuted : exists r h h',
+  Permutation (h_cuda h) (h_cuda h') /\ offers_gpus r h /\ offers_gpus r h' /\
+  match_simple r h = None /\ match_simple r h' <> None.
+Proof.
+  exists (req_gpus [20; 20]), (host_gpus [8; 24; 24]), (host_gpus [24; 24; 8]).
+  split; [|split; [|split; [|split; [reflexivity|vm_compute; discriminate]]]].
+  - cbn. apply (Permutation_cons_append [gpu0 24; gpu0 24] (gpu0 8)).
+  - exists S. split; [intros; lia|].
+    intros [|[|i]] m H; simpl in H; [| |destruct i; discriminate]; inversion H; subst;
+      (eexists; split; [reflexivity|cbn; lia]).
+  - exists (fun i => i). split; [auto|].
+    intros [|[|i]] m H; simpl in H; [| |destruct i; discriminate]; inversion H; subst;
+      (eexists; split; [reflexivity|cbn; lia]).
+Qed.
